@@ -16,7 +16,7 @@ structure DateTime where
   s : Nat
   us : Nat
   tz : Option Int
-  deriving DecidableEq, Repr, Inhabited, BEq
+  deriving DecidableEq, Repr, Inhabited
 
 def pad (n width : Nat) : String :=
   let s := toString n
@@ -69,7 +69,7 @@ structure FloatAtom where
   num : Int
   den : Nat
   g : String
-  deriving DecidableEq, Repr, Inhabited, BEq
+  deriving DecidableEq, Repr, Inhabited
 
 inductive Value where
   | str (s : String)
@@ -80,7 +80,7 @@ inductive Value where
   | uri (u : String)                 -- prov.identifier.Identifier (xsd:anyURI)
   | qn (q : QName)
   | lit (v : String) (ty : Option QName) (lang : Option String)   -- prov.model.Literal
-  deriving DecidableEq, Repr, Inhabited, BEq
+  deriving DecidableEq, Repr, Inhabited
 
 /-- exact numeric value of a numeric kind as a fraction -/
 def Value.num? : Value → Option (Int × Nat)
